@@ -13,6 +13,17 @@
 //! * X `CCross`: generated race-free scripts with nesting (subshells, pipelines
 //!   that move data, command substitutions, asynchronous lists) run under several
 //!   schedules; the main shell's observations must be identical.
+//! * N `CNest`: nested process trees against the sequential reference; T `CTrap`:
+//!   `wait` interrupted by a trapped signal.
+//! * P `CPipeFd`: pipelines of 2..5 members started with an unusual descriptor
+//!   table (each of 0, 1, 2 open or closed, extras at 3..5), in the main shell or a
+//!   subshell; status, data received by the last member, and the descriptors each
+//!   member has open (built-in `fdmap`) against the PipeSet model of coq/C13/Fds.v.
+//! * S, N, X and P put 0, 1 or 2 earlier children that were waited for (foreground
+//!   subshell, pipeline, asynchronous child + `wait`) before the generated part, so
+//!   that later forks copy an initialised SIGCHLD / select-mask state.  A stalled run
+//!   (no runnable task, processes alive; decided by the scheduler, not by wall time)
+//!   is reported as `deadlock` and is verdict 20, a violation.
 #[path = "c13_sched.rs"]
 mod sched;
 
@@ -69,7 +80,25 @@ fn burst_main(env: &mut VEnv, args: Vec<Field>) -> BuiltinFuture<'_> {
     })
 }
 
+/// `fdmap TAG`: records which of the descriptors 0..9 this process has open
+/// (fcntl F_GETFD), as the record `fdmap [TAG, "0 1 2"]`.
+fn fdmap_main(env: &mut VEnv, args: Vec<Field>) -> BuiltinFuture<'_> {
+    Box::pin(async move {
+        use yash_env::system::{Fcntl as _, GetPid as _};
+        let open: Vec<String> =
+            (0..10).filter(|fd| env.system.fcntl_getfd(yash_env::io::Fd(*fd)).is_ok()).map(|fd| fd.to_string()).collect();
+        yv_harness::vsh::trace_push(yv_harness::vsh::TraceItem {
+            kind: "fdmap".into(),
+            status: env.exit_status.0,
+            args: vec![args.first().map(|f| f.value.clone()).unwrap_or_default(), open.join(" ")],
+            in_main: env.system.getpid() == env.main_pid,
+        });
+        ExitStatus(env.exit_status.0).into()
+    })
+}
+
 pub fn install(env: &mut VEnv) {
+    env.builtins.insert("fdmap", Builtin::new(Type::Mandatory, fdmap_main));
     env.builtins.insert("burst", Builtin::new(Type::Mandatory, burst_main));
     env.builtins.insert("work", Builtin::new(Type::Mandatory, work_main));
 }
@@ -443,10 +472,39 @@ fn render(p: &[Cmd]) -> String {
     s
 }
 
-fn gen_prog(r: &mut Rng, maxlen: usize, maxw: u32) -> Vec<Cmd> {
-    let n = 1 + r.below(maxlen);
+/// 0, 1 or 2 earlier children that the shell has waited for before the generated
+/// part starts: foreground subshell, pipeline, asynchronous child + `wait`.
+fn gen_s_prefix(r: &mut Rng) -> Vec<Cmd> {
     let mut p = vec![];
-    let mut nkids = 0usize;
+    for _ in 0..r.below(3) {
+        let st = *r.pick(&[0, 1, 3]);
+        match r.below(3) {
+            0 => p.push(Cmd::Pipe(vec![(works(r.below(2) as u32), st)], false)),
+            1 => p.push(Cmd::Pipe(vec![(works(r.below(2) as u32), 0), (works(r.below(2) as u32), st)], false)),
+            _ => {
+                p.push(Cmd::Async(works(r.below(2) as u32), st));
+                p.push(Cmd::Wait(None));
+            }
+        }
+    }
+    p
+}
+
+fn gen_prog(r: &mut Rng, maxlen: usize, maxw: u32) -> Vec<Cmd> {
+    gen_prog_after(r, maxlen, maxw, vec![])
+}
+
+fn gen_prog_after(r: &mut Rng, maxlen: usize, maxw: u32, prefix: Vec<Cmd>) -> Vec<Cmd> {
+    let n = 1 + r.below(maxlen);
+    let mut nkids: usize = prefix
+        .iter()
+        .map(|c| match c {
+            Cmd::Async(..) => 1,
+            Cmd::Pipe(l, _) => l.len(),
+            _ => 0,
+        })
+        .sum();
+    let mut p = prefix;
     let mut asyncs: Vec<usize> = vec![];
     let sts = [0, 0, 0, 1, 2, 7, 42, 127, 255];
     for _ in 0..n {
@@ -545,7 +603,7 @@ struct SRun {
 }
 
 thread_local! {
-    static WATCHDOG: sched::Watchdog = sched::Watchdog::start(Duration::from_secs(60));
+    static WATCHDOG: sched::Watchdog = sched::Watchdog::start(Duration::from_secs(600));
 }
 
 fn run_script(script: &str, policy: Policy) -> SRun {
@@ -686,6 +744,22 @@ fn gen_nested(r: &mut Rng) -> String {
     if r.chance(1, 4) {
         s.push_str(&gen_stop_stmt(r));
         s.push_str("wait $h0\n");
+    } else {
+        // earlier children that have been waited for before any nested tree is forked
+        for _ in 0..r.below(3) {
+            match r.below(3) {
+                0 => s.push_str(&format!("( work {} {} )\n", r.below(2), r.below(3))),
+                1 => s.push_str(&format!("work {} | work {}\n", r.below(2), r.below(2))),
+                _ => s.push_str(&format!("work {} {} & wait\n", r.below(2), r.below(3))),
+            }
+        }
+        // ... and a tree that has to wait for a child of its own
+        match r.below(4) {
+            0 => s.push_str(&format!("( ( work {} 3 ); exit $? )\nargs \"$?\"\n", r.below(2))),
+            1 => s.push_str(&format!("( work {} 2 | work {} 4 )\nargs \"$?\"\n", r.below(2), r.below(2))),
+            2 => s.push_str(&format!("( work {} 1 & wait $! )\nargs \"$?\"\n", r.below(2))),
+            _ => s.push_str(&format!("{{ work {} 6 & wait $!; }} &\nwait $!\nargs \"$?\"\n", r.below(2))),
+        }
     }
     let n = 2 + r.below(6);
     for _ in 0..n {
@@ -985,6 +1059,119 @@ fn stream_n_case(w: &mut CasesWriter, cmds: &[NCmd], pk: usize, seed: u64) {
 }
 
 // ---------------------------------------------------------------------------
+// Stream P: pipelines started with an unusual descriptor table
+
+/// `lay[i]` = descriptor i (0..5) is open when the pipeline starts; `pre` = earlier
+/// children that have been waited for; `wrap` = the whole thing runs in a subshell.
+fn pipefd_script(lay: &[bool; 6], k: usize, st: i32, pre: usize, wrap: bool) -> String {
+    let mut s = String::new();
+    for j in 0..pre {
+        s.push_str(match (j + k + st as usize) % 3 {
+            0 => "( work 0 1 )\n",
+            1 => "work 0 | work 0 2\n",
+            _ => "work 0 3 & wait\n",
+        });
+    }
+    let mut redirs: Vec<String> = vec![];
+    for fd in 3..6 {
+        if lay[fd] {
+            redirs.push(format!("{fd}>&2"));
+        }
+    }
+    if !lay[0] {
+        redirs.push("0<&-".into());
+    }
+    if !lay[1] {
+        redirs.push("1>&-".into());
+    }
+    if !lay[2] {
+        redirs.push("2>&-".into());
+    }
+    let mut body = String::new();
+    if !redirs.is_empty() {
+        body.push_str(&format!("exec {}\n", redirs.join(" ")));
+    }
+    let mut ms: Vec<String> = vec!["{ fdmap 0; echo a; }".into()];
+    for i in 1..k - 1 {
+        ms.push(format!("{{ fdmap {i}; read y; echo \"${{y}}{i}\"; }}"));
+    }
+    ms.push(format!("{{ fdmap {}; read y; args got \"$y\"; exit {st}; }}", k - 1));
+    body.push_str(&ms.join(" | "));
+    body.push('\n');
+    if wrap {
+        s.push_str(&format!("(\n{body})\n"));
+    } else {
+        s.push_str(&body);
+    }
+    s.push_str("args \"$?\"\n");
+    s
+}
+
+fn stream_p_case(w: &mut CasesWriter, lay: &[bool; 6], k: usize, st: i32, pre: usize, wrap: bool, pk: usize, seed: u64) {
+    let script = pipefd_script(lay, k, st, pre, wrap);
+    let (pol, name) = policy_of(pk, seed);
+    let run = run_script(&script, pol);
+    let o = &run.o;
+    let obs: Vec<String> =
+        o.trace.iter().filter(|t| t.in_main && t.kind == "args").map(|t| coq::z(t.status as i128)).collect();
+    let got: Vec<String> = o
+        .trace
+        .iter()
+        .filter(|t| t.kind == "args" && t.args.first().map(|a| a == "got").unwrap_or(false))
+        .map(|t| coq::s(t.args.get(1).map(|x| x.as_str()).unwrap_or("")))
+        .collect();
+    let mut fds: Vec<(usize, String)> = o
+        .trace
+        .iter()
+        .filter(|t| t.kind == "fdmap")
+        .map(|t| {
+            let i = t.args[0].parse::<usize>().unwrap_or(99);
+            let l: Vec<String> =
+                t.args[1].split_whitespace().map(|x| coq::nat(x.parse::<usize>().unwrap_or(99))).collect();
+            (i, coq::list(&l))
+        })
+        .collect();
+    fds.sort();
+    let fds_t: Vec<String> = fds.iter().map(|(i, l)| format!("({}, {})", coq::nat(*i), l)).collect();
+    let left = run.info.children.iter().filter(|(_, a, u)| *a || *u).count();
+    let lay_t: Vec<String> = lay.iter().map(|b| coq::b(*b)).collect();
+    let term = format!(
+        "(CPipeFd {} {} {} {} {} {} {} {} {})",
+        coq::list(&lay_t),
+        coq::nat(k),
+        coq::n(st as u64),
+        coq::list(&got),
+        coq::list(&fds_t),
+        coq::list(&obs),
+        coq::b(o.deadlock || o.timeout),
+        coq::b(o.panicked.is_some()),
+        coq::nat(left)
+    );
+    let json = format!(
+        "{{\"stream\":\"P\",\"script\":{},\"policy\":{},\"observed\":{},\"got\":{},\"fds\":{},\"deadlock\":{},\"timeout\":{},\"left\":{},\"stderr\":{}}}",
+        json_str(&script),
+        json_str(&name),
+        json_str(&obs.join(" ").replace("%Z", "")),
+        json_str(&got.join(" ")),
+        json_str(&fds_t.join(" ").replace("%nat", "")),
+        o.deadlock,
+        o.timeout,
+        left,
+        json_str(&o.stderr.chars().take(200).collect::<String>())
+    );
+    w.count(&format!("P.members:{k}"));
+    w.count(&format!(
+        "P.closed:{}",
+        (0..3).filter(|i| !lay[*i]).map(|i| i.to_string()).collect::<Vec<_>>().join("+")
+    ));
+    w.count(&format!("P.extra-open(3..5):{}", (3..6).filter(|i| lay[*i]).count()));
+    w.count(&format!("P.earlier-children-waited-for:{pre}"));
+    w.count(if wrap { "P.where:subshell" } else { "P.where:main shell" });
+    let key = if k >= 3 && lay[..3].iter().any(|b| !*b) { Some(format!("P:{script}:{name}")) } else { None };
+    w.push(&term, &json, &[], key);
+}
+
+// ---------------------------------------------------------------------------
 // Stream T: `wait` interrupted by a trapped signal
 
 const SIGUSR1_NO: u64 = 124; // yash_env::system::virtual::SIGUSR1
@@ -1228,7 +1415,9 @@ fn main() {
     let ns = args.scale(160, 2500);
     for k in 0..ns {
         let mut r = rng.fork(2_000_000 + k as u64);
-        let p = gen_prog(&mut r, if args.thorough() { 8 } else { 6 }, 3);
+        let pre = gen_s_prefix(&mut r);
+        w.count(&format!("S.earlier-children-waited-for:{}", pre.iter().filter(|c| !matches!(c, Cmd::Wait(_))).count()));
+        let p = gen_prog_after(&mut r, if args.thorough() { 8 } else { 6 }, 3, pre);
         let script = render(&p);
         let nsched = args.scale(4, 6);
         for j in 0..nsched {
@@ -1294,6 +1483,34 @@ fn main() {
         }
     }
 
+    // a subshell that has to wait for a child of its own, forked AFTER the shell has
+    // already waited for an earlier child (so that the state copied by fork --
+    // signal mask, SIGCHLD disposition, the select mask of the concurrency layer
+    // -- is the initialised one)
+    {
+        let wk = |st: i32| vec![NCmd::Work(0, st)];
+        let after_wait: Vec<Vec<NCmd>> = vec![
+            // (exit 1); ( (exit 3); exit $? )
+            vec![NCmd::Sub(vec![NCmd::Exit(1)]), NCmd::Sub(vec![NCmd::Sub(wk(3))])],
+            // : | :; ( exit 2 | exit 4 )
+            vec![NCmd::Pipe(vec![wk(0), wk(0)], false), NCmd::Sub(vec![NCmd::Pipe(vec![vec![NCmd::Exit(2)], vec![NCmd::Exit(4)]], false)])],
+            // true & wait $!; ( false & wait $! )
+            vec![NCmd::AsyncWait(wk(0)), NCmd::Sub(vec![NCmd::AsyncWait(wk(1))])],
+            // `wait` inside an asynchronous list started after an earlier foreground child
+            vec![NCmd::Sub(wk(0)), NCmd::AsyncWait(vec![NCmd::AsyncWait(vec![NCmd::Work(1, 5)])])],
+            // two earlier children, then a command substitution that waits for a pipeline
+            vec![NCmd::Sub(wk(2)), NCmd::AsyncWait(wk(0)), NCmd::Subst(vec![NCmd::Pipe(vec![wk(0), wk(7)], false)])],
+            // a pipeline member that waits for a subshell, after an earlier pipeline
+            vec![NCmd::Pipe(vec![wk(1), wk(0)], false), NCmd::Pipe(vec![vec![NCmd::Sub(wk(3))], vec![NCmd::AsyncWait(wk(6))]], false)],
+        ];
+        for (ci, cmds) in after_wait.iter().enumerate() {
+            for pk in 0..5 {
+                w.count("N.script:nested tree forked after an earlier wait (corpus)");
+                stream_n_case(&mut w, cmds, pk, 300 + ci as u64);
+            }
+        }
+    }
+
     // nested process trees against the sequential reference
     let nn = args.scale(60, 1200);
     for k in 0..nn {
@@ -1327,6 +1544,19 @@ fn main() {
                 c
             })
             .collect();
+        // 0, 1 or 2 earlier children that are waited for before the trees are forked
+        let npre = r.below(3);
+        for _ in 0..npre {
+            let st = *r.pick(&[0, 1, 3]);
+            let body = vec![NCmd::Work(r.below(2) as u32, st)];
+            let c = match r.below(3) {
+                0 => NCmd::Sub(body),
+                1 => NCmd::Pipe(vec![vec![NCmd::Work(r.below(2) as u32, 0)], body], pf),
+                _ => NCmd::AsyncWait(body),
+            };
+            cmds.insert(0, c);
+        }
+        w.count(&format!("N.earlier-children-waited-for:{npre}"));
         if early {
             let at = r.below(cmds.len() + 1);
             cmds.insert(at, gen_early_exit_pipe(&mut r));
@@ -1338,6 +1568,30 @@ fn main() {
         for j in 0..nsched {
             let pk = if j == 0 { 0 } else if j == 1 { 1 } else { 2 + r.below(3) };
             stream_n_case(&mut w, &cmds, pk, r.next_u64() % 1_000_000);
+        }
+    }
+
+    // pipelines of 2..5 commands under every layout of the descriptors 0, 1, 2 (open /
+    // closed), with extra descriptors open at 3..5, after 0..2 earlier children
+    {
+        let mut r = rng.fork(11_000_000);
+        // the minimal case first: `exec >&-; echo a | ... | { read y; ... }`
+        for pk in 0..2 {
+            stream_p_case(&mut w, &[true, false, true, false, false, false], 3, 0, 0, false, pk, 7);
+        }
+        let reps = args.scale(1, 6);
+        for low in 0..8usize {
+            for k in 2..=5usize {
+                for _ in 0..reps {
+                    let hi = r.below(8);
+                    let lay = [low & 1 == 0, low & 2 == 0, low & 4 == 0, hi & 1 != 0, hi & 2 != 0, hi & 4 != 0];
+                    let st = *r.pick(&[0, 0, 1, 5, 42]);
+                    let pre = r.below(3);
+                    let wrap = r.chance(1, 2);
+                    let pk = r.below(5);
+                    stream_p_case(&mut w, &lay, k, st, pre, wrap, pk, r.next_u64() % 1_000_000);
+                }
+            }
         }
     }
 
@@ -1370,6 +1624,7 @@ fn main() {
         "K: kernel interface operations (non-trivial = at least two children and a reported exit); \
          S: scripts of asynchronous children / pipelines / subshells / wait / probes under a chosen schedule \
          (non-trivial = at least two children and a scheduling point with a choice; distinct = script x schedule); \
-         X: nested race-free scripts under several schedules (non-trivial = at least four processes)",
+         X: nested race-free scripts under several schedules (non-trivial = at least four processes); \
+         P: pipelines started with an unusual descriptor table (non-trivial = three or more members and one of 0, 1, 2 closed)",
     );
 }
